@@ -337,7 +337,11 @@ def c03(payload):
                 sg = 1.0 if np.dot(dq, d) > 0 else -1.0
                 if abs(G.current[p.idx] - Fm.current[q.idx] * sg) > tol * ref:
                     bad.append('pulse %d current over ground %r, free space + image %r' % (p.idx + 1, G.current[p.idx], Fm.current[q.idx] * sg)); break
-            # gain 3.0103 dB higher
+            # gain 3.0103 dB higher (meaningless when the sources nearly cancel: the net input power is then a small
+            # difference of large numbers and the gain normalisation is numerical noise)
+            p_app = sum(0.5 * abs(s.voltage) * abs(G.current[s.idx]) for s in G.sources)
+            if not G.power > 0.02 * p_app:
+                r['bad'] = bad; r['cond'] = cond; out.append(r); continue
             zen, azi = Angle(10.0, 25.0, 4), Angle(30.0, 110.0, 3)
             G.compute_far_field(zen, azi); Fm.compute_far_field(zen, azi)
             gg, gf = np.array(G.far_field.gain)[:, :, 2], np.array(Fm.far_field.gain)[:, :, 2]
@@ -561,7 +565,7 @@ def c04(payload):
             # far zone: merges into the reported far field, transverse, E/H = 376.7
             # far enough that the offset of the antenna from the origin (the far field's reference point) is below 1 %
             ext = float(np.abs(allp).max()) + maxseg
-            R = max(lam * rng.choice([60, 200, 1000]), 150 * ext)
+            R = max(lam * rng.choice([1000, 5000]), 150 * ext)
             # not into a null of the pattern: there the (1/R^2) radial and reactive parts dominate at any finite distance
             cand = [(math.radians(rng.uniform(15, 75)), math.radians(rng.uniform(0, 360))) for _ in range(6)]
             def _ffmag(tp):
